@@ -16,11 +16,16 @@
 //	        DecodeBytes calls of the event.
 //	Encode: t, val (typed form of the Go value); ok, enc (rlp.EncodeToBytes);
 //	        back (DecodeBytes of enc into a fresh value of the type).
+//	EncodeFail: t, val: an encode expected to fail (negative integer nested in a
+//	        container), run directly before the next Encode event on the same
+//	        goroutine (src tlc-seq / random-seq): the encoding of a value must
+//	        not depend on what the encoder was asked before.
 package main
 
 import (
 	"encoding/json"
 	"flag"
+	"math/big"
 	"fmt"
 	"io"
 	"math/rand"
@@ -43,6 +48,10 @@ type tcase struct {
 	Tr   []int  `json:"tr"`
 	T    string `json:"t"`
 	V    form   `json:"v"`
+	T1   string `json:"t1"` // encseq: a value whose encoding fails after it has started (t1, v1) ...
+	V1   form   `json:"v1"`
+	T2   string `json:"t2"` // ... directly followed, on the same goroutine, by an ordinary value (t2, v2)
+	V2   form   `json:"v2"`
 }
 
 const slack = 16 // bytes available to the reader beyond the declared input
@@ -311,34 +320,77 @@ func streamOps(in []byte) map[string]interface{} {
 }
 
 func encodeEvent(name string, v reflect.Value, src string) map[string]interface{} {
+	return encodeAfter("", reflect.Value{}, name, v, src)[1]
+}
+
+// encodeAfter encodes the value (name, v) and logs it as an Encode event.  When
+// badName is set, an encode that is expected to fail (an unsupported value nested
+// in a container, so that output has been produced when the failure is noticed)
+// runs immediately before it on the same goroutine: the encoder keeps its buffers
+// in a sync.Pool (per P), so the ordinary encode works with the buffer the failed
+// one handed back.  Returns {EncodeFail event or nil, Encode event}.
+func encodeAfter(badName string, bad reflect.Value, name string, v reflect.Value, src string) [2]map[string]interface{} {
 	t := catalogue[name]
 	ptr := reflect.New(t)
 	ptr.Elem().Set(v)
 	ev := map[string]interface{}{"event": "Encode", "src": src, "t": name, "val": formOf(ptr.Elem()),
 		"ok": false, "panic": false, "enc": []int{}, "back": map[string]interface{}{"ok": false, "panic": false, "val": errForm()}}
+	var fail map[string]interface{}
+	var badPtr reflect.Value
+	if badName != "" {
+		badPtr = reflect.New(catalogue[badName])
+		badPtr.Elem().Set(bad)
+		fail = map[string]interface{}{"event": "EncodeFail", "src": src, "t": badName, "val": formOf(badPtr.Elem()), "ok": false, "panic": false}
+	}
 	var enc []byte
-	var err error
-	p, msg := codecutil.Try(func() { enc, err = rlp.EncodeToBytes(ptr.Interface()) })
+	var err, berr error
+	var bp bool
+	// the two encodes back to back: nothing between them that could yield the P or start a GC cycle
+	p, msg := codecutil.Try(func() {
+		if badName != "" {
+			bp, _ = codecutil.Try(func() { _, berr = rlp.EncodeToBytes(badPtr.Interface()) })
+		}
+		enc, err = rlp.EncodeToBytes(ptr.Interface())
+	})
+	if fail != nil {
+		fail["panic"] = bp
+		fail["ok"] = !bp && berr == nil
+	}
 	if p {
 		ev["panic"] = true
 		ev["msg"] = msg
-		return ev
+		return [2]map[string]interface{}{fail, ev}
 	}
 	if err != nil {
-		return ev
+		return [2]map[string]interface{}{fail, ev}
 	}
 	ev["ok"] = true
 	ev["enc"] = codecutil.Ints(enc)
 	back := reflect.New(t)
 	var derr error
-	p, msg = codecutil.Try(func() { derr = rlp.DecodeBytes(enc, back.Interface()) })
-	b := map[string]interface{}{"ok": false, "panic": p, "val": errForm()}
+	p, _ = codecutil.Try(func() { derr = rlp.DecodeBytes(enc, back.Interface()) })
+	bk := map[string]interface{}{"ok": false, "panic": p, "val": errForm()}
 	if !p && derr == nil {
-		b["ok"] = true
-		b["val"] = formOf(back.Elem())
+		bk["ok"] = true
+		bk["val"] = formOf(back.Elem())
 	}
-	ev["back"] = b
-	return ev
+	ev["back"] = bk
+	return [2]map[string]interface{}{fail, ev}
+}
+
+// badValue: a value of a container type with a negative big integer inside, after
+// at least one encodable field (so the failing encode has produced output).
+func badValue(rng *rand.Rand) (string, reflect.Value) {
+	neg := new(big.Int).Neg(big.NewInt(int64(1 + rng.Intn(1000000))))
+	switch rng.Intn(3) {
+	case 0:
+		p := uint64(300)
+		return "Sptr", reflect.ValueOf(Sptr{P: &p, Q: neg})
+	case 1:
+		return "EthTx", reflect.ValueOf(EthTx{AccountNonce: 9, Price: big.NewInt(1), GasLimit: 21000, Amount: neg, Payload: []byte{1, 2, 3},
+			V: big.NewInt(27), R: big.NewInt(1), S: big.NewInt(1)})
+	}
+	return "Sptr", reflect.ValueOf(Sptr{Q: neg})
 }
 
 // miniEnc is a minimal independent RLP encoder of interface{} trees
@@ -427,7 +479,7 @@ func main() {
 	codecutil.ReadCases(*casesPath, &cases)
 	opsRng = vutil.Rng(88 + 1000**salt)
 	tr := vutil.NewTrace(outAbs)
-	nDec, nEnc := 0, 0
+	nDec, nEnc, nFail := 0, 0, 0
 	for _, c := range cases {
 		switch c.Op {
 		case "dec":
@@ -454,6 +506,21 @@ func main() {
 				tr.Emit(decodeEvent(codecutil.FromInts(enc), "tlc-enc"))
 				nDec++
 			}
+		case "encseq":
+			t1, ok1 := catalogue[c.T1]
+			t2, ok2 := catalogue[c.T2]
+			if !ok1 || !ok2 {
+				vutil.Fatalf("unknown type in encseq case")
+			}
+			// several repetitions: the pool hands the same buffer back only while the
+			// goroutine stays on its P and no GC cycle clears the pool
+			for rep := 0; rep < 3; rep++ {
+				evs := encodeAfter(c.T1, build(t1, c.V1), c.T2, build(t2, c.V2), "tlc-seq")
+				tr.Emit(evs[0])
+				tr.Emit(evs[1])
+				nFail++
+				nEnc++
+			}
 		default:
 			vutil.Fatalf("unknown case op %q", c.Op)
 		}
@@ -463,7 +530,17 @@ func main() {
 	for i := 0; i < *nRandom; i++ {
 		name := typeNames[rng.Intn(len(typeNames))]
 		v := randValue(rng, catalogue[name], 0, "")
-		ev := encodeEvent(name, v, "random")
+		var ev map[string]interface{}
+		if rng.Intn(3) == 0 {
+			// history: a failing encode directly before this one
+			bn, bv := badValue(rng)
+			evs := encodeAfter(bn, bv, name, v, "random-seq")
+			tr.Emit(evs[0])
+			nFail++
+			ev = evs[1]
+		} else {
+			ev = encodeEvent(name, v, "random")
+		}
 		tr.Emit(ev)
 		nEnc++
 		// mutated encodings: from an independently produced valid encoding and
@@ -479,5 +556,5 @@ func main() {
 		nDec++
 	}
 	tr.Close()
-	fmt.Printf("c08: decode_events=%d encode_events=%d events=%d types=%d\n", nDec, nEnc, tr.N, len(typeNames))
+	fmt.Printf("c08: decode_events=%d encode_events=%d fail_events=%d events=%d types=%d\n", nDec, nEnc, nFail, tr.N, len(typeNames))
 }
